@@ -55,7 +55,10 @@ def creator(kind):
     from torrentfile import torrent as tt
     return {"v1": (tt.TorrentFile, {}), "v2": (tt.TorrentFileV2, {}),
             "hy": (tt.TorrentFileHybrid, {}), "a2": (tt.TorrentAssembler, {"meta_version": "2"}),
-            "a3": (tt.TorrentAssembler, {"meta_version": "3"})}[kind]
+            "a3": (tt.TorrentAssembler, {"meta_version": "3"}),
+            # the documented type of meta_version is int
+            "a2i": (tt.TorrentAssembler, {"meta_version": 2}),
+            "a3i": (tt.TorrentAssembler, {"meta_version": 3})}[kind]
 
 
 def create(kind, path, out, piece_length=None, progress=0, **kw):
@@ -119,11 +122,15 @@ def rebuild(metafiles, contents, dest):
         return asm.assemble_torrents()
 
 
+class SharedRequest(dict):
+    """A request dictionary the caller keeps and passes again (it must come back unchanged)."""
+
+
 def edit(metafile, args):
     use_repo()
     from torrentfile.edit import edit_torrent
     with quiet():
-        return edit_torrent(metafile, dict(args))
+        return edit_torrent(metafile, args if isinstance(args, SharedRequest) else dict(args))
 
 
 def magnet(metafile, version=0):
